@@ -187,6 +187,118 @@ def tv_replay(case):
 # pool obligations other than behaviour preservation (symbolic-literal run of T, then a text-level oracle)
 
 
+HISTORY_FIXED = (
+    "def hist(node, other, k):\n"
+    "    if node.size > 1 and (node.size > 1 or other.size < 2):\n        return 1\n"
+    "    if other.left is None or (other.left is None and node.right is not None):\n        return 2\n"
+    "    if not (k[0] == 1 and k[1] == 2) or (k[2] != 3 and k[0] == 1):\n        return 3\n"
+    "    if (node.a < 1 and node.b < 2 and node.c < 3) or (node.a < 1 and node.b < 2) or node.d > 4 or node.e > 5 or len(k) > 6:\n        return 4\n"
+    "    return 0\n"
+)
+
+
+def history_texts(text):
+    """Earlier inputs for the history-independence obligation: relatives of `text` itself (the operands of every
+    and / or in reverse order; every comparison mirrored) and a fixed program with a dozen distinct non-name
+    boolean operands. A process-wide table keyed by pieces of earlier inputs shows up only when a later input
+    shares pieces with them."""
+    import ast as _ast
+
+    out = []
+    try:
+        tree = _ast.parse(text)
+    except SyntaxError:
+        tree = None
+    if tree is not None:
+        for how in ("reverse", "rotate"):
+            tree = _ast.parse(text)
+            changed = False
+            for node in _ast.walk(tree):
+                if isinstance(node, _ast.BoolOp) and len(node.values) > 1:
+                    node.values = node.values[::-1] if how == "reverse" else node.values[1:] + node.values[:1]
+                    changed = True
+            if changed:
+                try:
+                    rel = _ast.unparse(tree) + "\n"
+                except Exception:  # noqa: BLE001
+                    continue
+                if rel not in out:
+                    out.append(rel)
+    out.append(HISTORY_FIXED)
+    return out
+
+
+def fresh_vs_history(transform, text, timeout_s=60):
+    """History independence from the other side: the result for `text` in a process that has never seen it must be
+    the same whether or not relatives of `text` were formatted first. Both runs happen in forked children of the
+    current process (whose own state is left untouched), concretely: markers are ordinary literals there.
+    Returns (out_fresh, out_after_history) or None when a child failed."""
+    import json as _json
+    import os as _os
+    import select as _select
+
+    from . import instrument, sym
+
+    def child(history):
+        r, w = _os.pipe()
+        pid = _os.fork()
+        if pid == 0:
+            res = None
+            try:
+                _os.close(r)
+                sym.Engine.cur = None
+                instrument.reset_caches()
+                T = get_transform(transform)
+                for h in history:
+                    try:
+                        T(h)
+                    except Exception:  # noqa: BLE001
+                        pass
+                try:
+                    res = T(text)
+                except Exception as e:  # noqa: BLE001
+                    res = "<<raised %s>>" % type(e).__name__
+            except BaseException:  # noqa: BLE001
+                res = None
+            finally:
+                try:
+                    _os.write(w, _json.dumps(res).encode())
+                except BaseException:  # noqa: BLE001
+                    pass
+                _os._exit(0)
+        _os.close(w)
+        chunks = []
+        try:
+            while True:
+                ready, _, _ = _select.select([r], [], [], timeout_s)
+                if not ready:
+                    try:
+                        _os.kill(pid, 9)
+                    except OSError:
+                        pass
+                    break
+                b = _os.read(r, 1 << 16)
+                if not b:
+                    break
+                chunks.append(b)
+        finally:
+            _os.close(r)
+            try:
+                _os.waitpid(pid, 0)
+            except OSError:
+                pass
+        try:
+            return _json.loads(b"".join(chunks).decode())
+        except ValueError:
+            return None
+
+    a = child([])
+    b = child(history_texts(text))
+    if a is None or b is None:
+        return None
+    return a, b
+
+
 def ob_prop(skeleton, transform, mode, budget_s=60.0, max_paths=400, annotate=None):
     """mode: 'valid' (C03-e: output parses), 'total' (C04-f: nothing escapes), 'pure' (C05: second call and
     warm caches give the same text, caches stay faithful), 'converge' (C09-c: fixed point within 5
@@ -226,6 +338,12 @@ def ob_prop(skeleton, transform, mode, budget_s=60.0, max_paths=400, annotate=No
                 stats["changed"] += 1
             eng.claim(True)
             return
+        if mode == "pure" and not stats.get("forked"):
+            stats["forked"] = 1
+            fh = fresh_vs_history(transform, text)
+            if fh is not None and fh[0] != fh[1]:
+                eng.claim(False, info={"what": "result depends on what was formatted before", "fresh": fh[0], "after_history": fh[1]})
+                return
         try:
             out = run(text)
         except Exception:  # noqa: BLE001 - C04's business
@@ -269,6 +387,13 @@ def ob_prop(skeleton, transform, mode, budget_s=60.0, max_paths=400, annotate=No
                 _bad_rule.__name__ = "bad_rule"
                 processing.fix(_bad_rule)(text)
                 run("zz = 1\nif zz > 7000:\n    print(zz)\n")
+                for earlier in history_texts(text):
+                    try:
+                        run(earlier)
+                    except sym.EngineSignal:
+                        raise
+                    except Exception:  # noqa: BLE001 - a crash on another input is not this obligation's business
+                        pass
                 # ... and enough other texts to evict the entry of `text` from the parse cache (maxsize 100), while
                 # larger caches (trace_origin, compile_template) still remember it
                 for i in range(130):
@@ -361,6 +486,7 @@ def prop_replay(case):
             return {"reproduced": True, "key": "%s|raises:%s" % (case["oid"], type(e).__name__),
                     "detail": "%s raised %r on:\n%s" % (case["transform"], e, text[-700:])}
         return {"reproduced": not isinstance(out, str), "detail": "returned %r" % type(out)}
+    fh = fresh_vs_history(case["transform"], text) if mode == "pure" else None  # before this process has seen the text
     out = T(text)
     if mode == "valid":
         try:
@@ -383,6 +509,11 @@ def prop_replay(case):
         core.parse = parse
         try:
             out2 = T(text)
+            for earlier in history_texts(text):
+                try:
+                    T(earlier)
+                except Exception:  # noqa: BLE001
+                    pass
             for i in range(130):
                 orig("pad_%d = %d\n" % (i, i))
             out3 = T(text)
@@ -390,6 +521,10 @@ def prop_replay(case):
             core.parse = orig
         stale = [t[:60] for t, tree in parsed.items() if _ast.dump(tree) != _ast.dump(_ast.parse(t))]
         bad = out2 != out or out3 != out or bool(stale)
+        if fh is not None and fh[0] != fh[1]:
+            return {"reproduced": True, "detail": "%s gives a different result for the same text after relatives of it were "
+                    "formatted first in the same process:\n--- fresh process:\n%s\n--- after history:\n%s" % (
+                        case["transform"], fh[0][-500:], fh[1][-500:])}
         return {"reproduced": bad, "detail": "%s called three times on the same text: equal=%s, stale cached trees: %s\n%s" % (
             case["transform"], (out2 == out, out3 == out), stale[:2], text[-400:])}
     if mode == "converge":
